@@ -438,6 +438,91 @@ def args_worker(_):
             acc.violation("C19/operand-mutated/point-%s" % c, "point operands changed by +, *, -, ==, copy",
                           {"part": "args", "label": "point-" + c})
         acc.seen("argcalls", "point-" + c)
+    # ---- more entry points that take caller buffers (bytearray arguments must read the same afterwards) ---------
+    from Crypto.Cipher import DES3, Blowfish, Salsa20, ChaCha20_Poly1305, ARC4
+    from Crypto.Hash import BLAKE2b, BLAKE2s, KMAC128, cSHAKE128, TupleHash128, KangarooTwelve, TurboSHAKE128, Poly1305, SHA3_256, MD5, SHA1
+    from Crypto.Protocol.KDF import bcrypt, bcrypt_check, PBKDF1, SP800_108_Counter
+    from Crypto.Protocol.SecretSharing import Shamir
+    from Crypto.Util.Padding import pad, unpad
+    from Crypto.Util.strxor import strxor, strxor_c
+    from Crypto.Util.number import bytes_to_long
+    from Crypto.PublicKey import RSA, DSA
+    buffers_unchanged("bcrypt(password, salt)", lambda pw, s: bcrypt(pw, 4, salt=s), ba(10, 65), ba(16, 3))
+    buffers_unchanged("bcrypt(71-byte password)", lambda pw: bcrypt(pw, 4, salt=bytes(16)), ba(71, 33))
+    h4 = bcrypt(b"pw", 4, salt=bytes(16))
+    buffers_unchanged("bcrypt_check", lambda pw, h: bcrypt_check(pw, h), bytearray(b"pw"), bytearray(h4))
+    buffers_unchanged("PBKDF1", lambda pw, s: PBKDF1(pw, s, 16, 2, SHA1), ba(10), ba(8))
+    buffers_unchanged("SP800_108_Counter", lambda k, lab, c: SP800_108_Counter(k, 20, lambda kk, d: HMAC.new(kk, d, SHA256).digest(), label=lab, context=c),
+                      ba(16), ba(5, 1), ba(7, 1))
+    buffers_unchanged("DES3-CBC", lambda k, d: DES3.new(k, DES3.MODE_CBC, iv=bytes(8)).encrypt(d), bytearray(DES3.adjust_key_parity(bytes(range(1, 25)))), ba(24))
+    buffers_unchanged("Blowfish-ECB", lambda k, d: Blowfish.new(k, Blowfish.MODE_ECB).encrypt(d), ba(9, 1), ba(16))
+    buffers_unchanged("Salsa20", lambda k, n, d: Salsa20.new(k, n).encrypt(d), ba(32), ba(8), ba(70))
+    buffers_unchanged("ARC4", lambda k, d: ARC4.new(k).encrypt(d), ba(9, 1), ba(70))
+    def _ccp(k, n, a, d):
+        c = ChaCha20_Poly1305.new(key=k, nonce=n)
+        c.update(a)
+        return c.encrypt_and_digest(d)
+    buffers_unchanged("ChaCha20-Poly1305", _ccp, ba(32), ba(12), ba(9), ba(70))
+    buffers_unchanged("AES-KW.seal", lambda k, d: AES.new(k, AES.MODE_KW).seal(d), ba(16), ba(24))
+    buffers_unchanged("AES-KWP.seal", lambda k, d: AES.new(k, AES.MODE_KWP).seal(d), ba(16), ba(9))
+    buffers_unchanged("AES-CFB/OFB", lambda d, iv: (AES.new(K16[0], AES.MODE_CFB, iv=iv, segment_size=8).encrypt(d), AES.new(K16[0], AES.MODE_OFB, iv=iv).encrypt(d)), ba(33), ba(16))
+    buffers_unchanged("AES-CTR(initial_value bytes)", lambda d, iv: AES.new(K16[0], AES.MODE_CTR, nonce=b"", initial_value=iv).encrypt(d), ba(33), ba(16))
+    buffers_unchanged("BLAKE2b(key)", lambda k, d: BLAKE2b.new(key=k, data=d, digest_bytes=32).digest(), ba(20), ba(200))
+    buffers_unchanged("BLAKE2s(key)", lambda k, d: BLAKE2s.new(key=k, data=d, digest_bytes=16).digest(), ba(20), ba(100))
+    buffers_unchanged("KMAC128", lambda k, d, c: KMAC128.new(key=k, data=d, mac_len=16, custom=c).digest(), ba(20), ba(200), ba(5))
+    buffers_unchanged("cSHAKE128", lambda d, c: cSHAKE128.new(data=d, custom=c).read(20), ba(200), ba(5))
+    buffers_unchanged("TupleHash128", lambda a, b: TupleHash128.new().update(a, b).digest(), ba(20), ba(30))
+    buffers_unchanged("KangarooTwelve", lambda d, c: KangarooTwelve.new(data=d, custom=c).read(20), ba(200), ba(5))
+    buffers_unchanged("TurboSHAKE128", lambda d: TurboSHAKE128.new(data=d).read(20), ba(200))
+    buffers_unchanged("Poly1305", lambda k, d: Poly1305.new(key=k, cipher=AES, data=d, nonce=bytes(16)).digest(), ba(32), ba(70))
+    buffers_unchanged("SHA3_256/MD5", lambda d: (SHA3_256.new(d).digest(), MD5.new(d).digest()), ba(200))
+    buffers_unchanged("HMAC.verify", lambda k, d, t: HMAC.new(k, d, SHA256).verify(t), ba(20), ba(50), ba(32))
+    buffers_unchanged("pad/unpad", lambda d, p: (pad(d, 16), unpad(p, 16)), ba(20), bytearray(pad(bytes(20), 16)))
+    buffers_unchanged("strxor", lambda a, b: (strxor(a, b), strxor_c(a, 7)), ba(33), ba(33, 50))
+    buffers_unchanged("bytes_to_long", lambda d: bytes_to_long(d), ba(33, 1))
+    buffers_unchanged("Shamir.split", lambda sec: Shamir.split(2, 3, sec), ba(16, 1))
+    shares = Shamir.split(2, 3, bytes(range(16)))
+    buffers_unchanged("Shamir.combine", lambda a, b: Shamir.combine([(shares[0][0], a), (shares[1][0], b)]), bytearray(shares[0][1]), bytearray(shares[1][1]))
+    buffers_unchanged("ECC.construct(seed)", lambda sd: ECC.construct(curve="ed25519", seed=sd).public_key().export_key(format="raw"), ba(32, 1))
+    buffers_unchanged("ECC.import_key(DER)", lambda d: ECC.import_key(d), bytearray(ek.export_key(format="DER")))
+    buffers_unchanged("RSA.import_key(DER, passphrase)", lambda d, pw: RSA.import_key(d, passphrase=pw),
+                      bytearray(rk.export_key(format="DER", pkcs=8, passphrase=b"secret", protection="PBKDF2WithHMAC-SHA1AndAES128-CBC",
+                                              prot_params={"iteration_count": 2}, randfunc=Stream("x"))), bytearray(b"secret"))
+    buffers_unchanged("DSA.import_key(DER)", lambda d: DSA.import_key(d), bytearray(dk.export_key(format="DER")))
+    buffers_unchanged("eddsa.sign/verify(message)", lambda m, sg: eddsa.new(e25.public_key(), "rfc8032").verify(m, sg), ba(40),
+                      bytearray(eddsa.new(e25, "rfc8032").sign(bytes(ba(40)))))
+    buffers_unchanged("DSS.verify(signature)", lambda sg: DSS.new(ek.public_key(), "fips-186-3").verify(SHA256.new(b"m"), sg),
+                      bytearray(DSS.new(ek, "deterministic-rfc6979").sign(SHA256.new(b"m"))))
+    buffers_unchanged("pkcs1_15.verify(signature)", lambda sg: pkcs1_15.new(rk).verify(SHA256.new(b"m"), sg), bytearray(pkcs1_15.new(rk).sign(SHA256.new(b"m"))))
+    try:
+        from Crypto.Protocol import HPKE
+        rkey = ECC.construct(curve="p256", d=1234567)
+        buffers_unchanged("HPKE.seal(info, aad, plaintext)", lambda info, a, d: HPKE.new(receiver_key=rkey.public_key(), aead_id=HPKE.AEAD.AES128_GCM, info=info).seal(d, a),
+                          ba(7), ba(9), ba(33))
+    except ImportError:
+        pass
+
+    # ---- objects derived from a key are independent of it: updating the point of the public key in place does not reach the private key
+    for c in ("p256", "p384", "ed25519", "ed448", "curve25519", "curve448"):
+        acc.count("transitions", 3)
+        acc.count("states")
+        seedlen = {"ed25519": 32, "ed448": 57, "curve25519": 32, "curve448": 56}
+        key = ECC.construct(curve=c, seed=bytes(range(1, 58))[:seedlen[c]]) if c in seedlen else ECC.construct(curve=c, d=0xABCDEF)
+        before = key.public_key().export_key(format="DER")
+        pub = key.public_key()
+        Qp = pub.pointQ
+        try:
+            Qp *= 3
+            if hasattr(Qp, "__iadd__") and c not in ("curve25519", "curve448"):
+                Qp += Qp
+        except Exception as e:  # noqa
+            acc.observe("derived objects: in-place update of a public point raised %s" % type(e).__name__)
+        after = key.public_key().export_key(format="DER")
+        acc.seen("argcalls", "public_key-independent-" + c)
+        if before != after:
+            acc.violation("C19/derived-object-shares-state/public_key-%s" % c,
+                          "%s: key.public_key() hands out the key's own point object: after 'pub.pointQ *= 3' the PRIVATE key exports a "
+                          "different public key" % c, {"part": "args", "label": "public_key-" + c})
     acc.sample({"part": "arguments", "calls": sorted(acc.distinct.get("argcalls", ()))[:8]})
     return acc
 
